@@ -1,6 +1,7 @@
 package verifh
 
 import (
+	"strings"
 	"testing"
 	"testing/synctest"
 	"time"
@@ -192,7 +193,8 @@ func TestC16(t *testing.T) {
 						evs = append(evs, c16Events[e])
 					}
 					r.Outcome("VIOLATION")
-					r.Violation("C16:"+slug(why), sprintf("T=%v events=%v: %s", T, evs, why), map[string]any{"T": T.String(), "events": evs, "trace": trace})
+					sg, msg, _ := strings.Cut(why, "|")
+					r.Violation("C16:"+sg, sprintf("T=%v events=%v: %s", T, evs, msg), map[string]any{"T": T.String(), "events": evs, "trace": trace})
 				}
 				if idx%50021 == 0 {
 					r.Sample(map[string]any{"T": T.String(), "trace": trace, "closed_at_step": closedAt})
